@@ -2,34 +2,34 @@
 
 import os
 
-# which candidate repairs the checked tree contains: "pinned" (the tree as it is), "fixed_F2" (after
-# fixes/C08-F2.diff), "repaired" (F2 and F3).  The coordinator changes the default after applying a fix.
-FX = os.environ.get("VERIF_C08_FX", "pinned")
+# which repairs the checked tree contains: "pinned" (before a779db8), "fixed_F2" (a779db8 = fixes/C08-F2.diff applied; the tree
+# as it is now), "repaired" (F2 and the candidate fixes/C08-F3.diff).
+FX = os.environ.get("VERIF_C08_FX", "fixed_F2")
 
 P = {
     "id": "C08",
     "claimed": True,
     "coq_targets": ["Properties/C08.vo", "Run/Eval_GoUrl.vo", "Run/Eval_C08.vo"],
     "theorems_module": "Properties.C08",
-    "theorems": ["C08_reencoding_invariant", "C08_F1_refuted", "C08_F2_refuted", "C08_F3_refuted",
-                 "C08_reencoding_invariant_nonvacuous",
-                 "C08_off_rejects_encoded_slash", "C08_off_answers_precondition",
-                 "C08_F2_off_refuted", "C08_F4_off_refuted", "C08_capture_decoding",
+    "theorems": ["C08_reencoding_invariant", "C08_reencoding_invariant_parametric", "C08_F1_refuted",
+                 "C08_F3_refuted", "C08_F2_pinned_refuted", "C08_reencoding_invariant_nonvacuous",
+                 "C08_malformed_rejected", "C08_reenc_checked_by_evaluator", "C08_off_rejects_encoded_slash",
+                 "C08_off_answers_precondition", "C08_off_rejects_encoded_slash_parametric", "C08_F4_off_refuted",
+                 "C08_F2_off_pinned_refuted", "C08_off_captures_decoded", "C08_capture_decoding",
                  "C08_nodecode_keeps", "C08_on_decodes", "C08_nodecode_on_nonvacuous",
-                 "C08_F2_nodecode_refuted", "C08_F5_nodecode_refuted", "C08_reenc_checked_by_evaluator",
-                 "C08_off_captures_decoded", "C08_malformed_rejected"],
+                 "C08_F5_nodecode_refuted", "C08_F2_nodecode_pinned_refuted"],
     "streams": [{
         "name": "requests", "pkg": "./internal/rules", "test": "TestVerifC08",
         "overlay": {"internal/rules/zz_verif_c08_test.go": "c08/c08_test.go"},
         "eval_module": "Run.Eval_C08", "check_term": "check " + FX,
         "n_quick": 1200, "n_thorough": 30000, "shard": 150,
-        "findings": {1: "C08-F1", 2: "C08-F2", 3: "C08-F3", 4: "C08-F4", 5: "C08-F5"},
+        "findings": {1: "C08-F1", 3: "C08-F3", 4: "C08-F4", 5: "C08-F5"},
     }, {
         "name": "units", "pkg": "./internal/rules", "test": "TestVerifC08Units",
         "overlay": {"internal/rules/zz_verif_c08_test.go": "c08/c08_test.go"},
         "eval_module": "Run.Eval_C08", "check_term": "ucheck " + FX,
         "n_quick": 1500, "n_thorough": 30000,
-        "findings": {2: "C08-F2", 5: "C08-F5"},
+        "findings": {5: "C08-F5"},
     }, {
         "name": "gourl", "pkg": "./internal/rules/config", "test": "TestVerifGoUrl",
         "overlay": {"internal/rules/config/zz_verif_gourl_test.go": "gourl/gourl_test.go"},
@@ -42,8 +42,7 @@ P = {
             "forward_to with/without rewrite), default rule in 40%, and an equivalent re-encoding of the path (unreserved "
             "octets encoded in either hex case, escapes of unreserved octets decoded, hex case of other escapes swapped; on the "
             "whole path or inside one segment); both spellings are sent byte for byte over TCP to a real net/http server whose "
-            "handler runs the real requestcontext + repository + rule executor.  Inputs on which the segment-wise search could "
-            "reach C03-F5 (captures lost after a dead end below a static child; C03's finding) are not generated.  "
+            "handler runs the real requestcontext + repository + rule executor.  "
             "Non-trivial = the request reaches heimdall, a rule set is loaded, and the two spellings differ or the path has an "
             "encoded slash; distinct by hash of the input.  units: rule_impl.go unescape on concatenations of escapes, "
             "place-holder fragments and malformed escapes.  gourl: net/url (unescape/escape/setPath/EscapedPath/RequestURI/"
@@ -53,7 +52,7 @@ P = {
                 "internal/rules/config/url_rewriter.go", "internal/handler/requestcontext/extract_url.go"],
     "trusted": ["the radix tree is abstracted to a segment-wise search (static > wildcard > catch-all, backtracking on, routes "
                 "of a node in insertion order); its faithful model and findings are C02/C03's; the abstraction is compared with "
-                "the real tree on every case of the requests stream, outside the input domain of C03-F5",
+                "the real tree on every case of the requests stream",
                 "net/url and strings functions are mirrored in Base/GoUrl.v and compared with the Go standard library on "
                 "every run (stream gourl)",
                 "path_params matchers are `exact` only (glob/regex engines are C03's oracles)",
@@ -61,16 +60,17 @@ P = {
     "level_text": "Proof (kernel-checked, no axioms) over a Gallina model of net/http target parsing, extractURL, FindRule's "
                   "choice of the raw path, the route lookup (segment-wise), pathParamMatcher and ruleImpl.Execute: for ALL "
                   "rule sets, default-rule settings, request paths and ALL equivalent re-encodings, the answer kind, the rule "
-                  "and the captured values are unchanged outside the guards of findings C08-F1/F2/F3; a path with %2F/%2f is "
-                  "never accepted by an `off` rule or the default rule outside C08-F2/F4; the place-holder decoding equals "
-                  "`decode all but the encoded slash` outside C08-F2/F5.  Each guard has a `_refuted` witness.  The model is tied "
+                  "and the captured values are unchanged outside the guards of findings C08-F1/F3; a path with %2F/%2f is "
+                  "never accepted by an `off` rule or the default rule outside C08-F4; captured values are the decoded pieces of the path "
+                  "(`no_decode`: all but the encoded slash; place-holder trick proved correct) and the upstream raw path is kept / dropped, outside C08-F4/F5.  Each guard has a `_refuted` witness.  The model is tied "
                   "to the code by three differential streams per run (~1200 request pairs through the real server/repository/"
                   "executor, ~1500 unescape units, ~3000 net/url cases; 30000/30000/40000 in the thorough tier).",
     "level_note": "Trusted: Coq kernel/vm_compute; the correspondence harness (generator, stub authenticator, Gallina rendering); "
                   "the radix tree abstracted to a segment-wise search (C02/C03 own the tree), generator restricted to inputs "
-                  "outside C03-F5's domain; exact path_params only.  Open findings C08-F1..F5 are guarded, observed on every run "
-                  "from the driver's corpus and documented by `_refuted` theorems; the model is parametric in the candidate "
-                  "repairs of F2 (fixes/C08-F2.diff) and F3.",
+                  "exact path_params only.  Open findings C08-F1/F3/F4/F5 are guarded, observed on every run from the driver's corpus "
+                  "and documented by `_refuted` theorems; C08-F2 was repaired by fix: commit a779db8 (theorems are stated for the "
+                  "repaired tree, the pinned behaviour is kept as `_pinned_refuted`); the model is parametric in the repairs "
+                  "(candidate fixes/C08-F3.diff).",
     "assumptions": ["requests reach heimdall through net/http (HTTP/1.1 origin-form target); the Envoy entry point, where "
                     "RawPath is never set, is C03's/C13's subject",
                     "every rule of the modelled rule sets has backtracking enabled (C02-F1/C14 cover the flag)",
